@@ -110,3 +110,33 @@ Fixpoint gpoints (l : list cact) (done : list act) : list (list act * (Z * Z)) :
 Definition finished (c : config) : bool := forallb (fun l => match l with [] => true | _ => false end) (fst c).
 
 End WithHash.
+
+(* ---- lookups among lookups, below the granularity of [CGet] (seeded C15-11) ----------------------
+   a lookup first puts the bytes of its key somewhere, then hashes what is THERE.
+   [LCopy t]: lookup t writes its key's bytes into its buffer; [LHash t]: it hashes the buffer's content (the
+   result is the key hash of whichever lookup's bytes the buffer holds) and reads the ring with it.  At HEAD
+   the buffer is the lookup's own ([]byte(repr(v)): a fresh slice per call) — [shared = false]; the seeded
+   change assembles the bytes in ONE buffer of the ring, under the READ lock — [shared = true]. *)
+Inductive lstep := LCopy (t : nat) | LHash (t : nat).
+
+Section Buffers.
+Variable shared : bool.
+Variable s : state.
+Variable keys : list (Z * Z).            (* lookup t's key: its two hashes *)
+
+Definition buf_of (t : nat) : nat := if shared then O else S t.
+Definition key_of (t : nat) : Z * Z := nth t keys (0, 0).
+
+(* the buffers: buffer id |-> the lookup whose key bytes it holds *)
+Fixpoint lrun (bufs : nat -> option nat) (steps : list lstep) : list (nat * gres) :=
+  match steps with
+  | [] => []
+  | LCopy t :: r => lrun (fun b => if Nat.eqb b (buf_of t) then Some t else bufs b) r
+  | LHash t :: r =>
+    match bufs (buf_of t) with
+    | Some u => (t, get s (fst (key_of u)) (snd (key_of u))) :: lrun bufs r
+    | None => lrun bufs r          (* nothing copied yet: not a step of a lookup *)
+    end
+  end.
+End Buffers.
+
